@@ -238,4 +238,7 @@ def cases(tier, seed):
         for rows, cols in ((3, 2), (4, 2)) if q else ((3, 2), (4, 2), (5, 3), (6, 3)):
             out.append(Case("gram-lemma:%s:%dx%d" % ('cx' if cplx else 're', rows, cols), case_gram_lemma,
                             dict(rows=rows, cols=cols, cplx=cplx), lemma=True, timeout=60 if q else 300))
+    from .common import reuse_cases, Call
+    out += reuse_cases([("CORRELATION", Call('CORRELATION', None, 2, 'biased'), 3, True), ("xcorr", Call('xcorr', None, 2, 'biased'), 3, True),
+                        ("CORRELATION", Call('CORRELATION', None, 2, 'unbiased'), 3, False)], q)
     return out
